@@ -1,2 +1,2 @@
 SPECIFICATION TSpec
-INVARIANTS SEqualsSpec SMid
+INVARIANTS SEqualsSpec SMid SSorted
